@@ -27,7 +27,7 @@ SHAPES = {
 }
 QUICK_SHAPES = ['line4', 'grid3x2', 'gen3x2x2', 'gen3x0x2', 'gen0x2x0', 'gen2x2x2']
 KINDS = ['callable', 'list', 'ndarray', 'constant', 'lookup_rank', 'lookup_np_rank', 'lookup_3d', 'constant_tuple',
-         'constant_list']
+         'constant_list', 'callable_mixed', 'lookup_3d_reused']
 NAMES = ['p', 'q', 'r']
 
 META = {
@@ -81,6 +81,7 @@ class Harness:
         w.other = mk(Core.Model(seed=2), self.wkind, self.dims)
         w.other.add_cell_component('keep', Envs.ConstantGenerator(42))
         w.other_snap = self.cn(w.other.cells)
+        self._shared_gen = None
         w.cols = {}          # name -> (kind, expected values by id)   (insertion order = column order)
         w.bufs = {}          # name -> the caller's buffer (list / ndarray) for list/ndarray sources
         w.known_now = None
@@ -107,6 +108,12 @@ class Harness:
         vals = [f(ki, p) for p in self.table]
         if kind == 'callable':
             return (lambda pos, cells: f(ki, pos)), vals, None
+        if kind == 'callable_mixed':
+            # the first cell yields an int, later cells floats / a bool / a string: each cell keeps its own value
+            def mixed(pos, cells):
+                i = self.table.index(tuple(pos))
+                return [f(ki, pos), f(ki, pos) + 0.5, True, 'txt'][i % 4] if i else f(ki, pos)
+            return mixed, [mixed(p, None) for p in self.table], None
         if kind == 'list':
             buf = list(vals)
             return buf, vals, buf
@@ -124,6 +131,20 @@ class Harness:
         full = [[[f(ki, (x, y, z)) for z in range(ex[2])] for y in range(ex[1])] for x in range(ex[0])]
         if kind == 'lookup_3d':
             return Envs.LookupGenerator(full), vals, None
+        if kind == 'lookup_3d_reused':
+            # ONE generator object per world whose table is edited in place before every further use
+            gen = self._shared_gen
+            if gen is None:
+                gen = self._shared_gen = Envs.LookupGenerator(full)
+                self._shared_uses = 0
+            else:
+                self._shared_uses += 1
+                for x in range(ex[0]):
+                    for y in range(ex[1]):
+                        for z in range(ex[2]):
+                            gen.table[x][y][z] += 100000
+            bump = 100000 * self._shared_uses
+            return gen, [v + bump for v in vals], None
         if self.rank == 1:
             t = [full[x][0][0] for x in range(ex[0])]
         elif self.rank == 2:
@@ -231,6 +252,28 @@ def _py(v):
     return v
 
 
+def big_world_case(case):
+    """A world with several thousand cells and values far beyond 64 bits: every cell checked."""
+    from mc.engine.seams import reset_library
+    reset_library()
+    wkind, dims = case['kind'], case['dims']
+    world = mk(Core.Model(seed=1), wkind, dims)
+    table = [tuple(p) for p in world.cells['pos']]
+
+    def key(pos, cells):
+        # ten digits per axis, built from factors that each fit 64 bits: exact in Python integers, far beyond 2**63
+        return (pos[0] * 10 ** 10 + pos[1]) * 10 ** 10 + pos[2]
+    world.add_cell_component('k', key)
+    world.add_cell_component('c', Envs.ConstantGenerator('s'))
+    got = list(world.cells['k'])
+    for i, p in enumerate(table):
+        if got[i] != key(p, None):
+            raise Violation(f'cell {p} of a {dims} world holds {got[i]!r}', expected=key(p, None), observed=repr(got[i]))
+    if list(world.cells['c']) != ['s'] * len(table) or list(world.cells.columns) != ['pos', 'k', 'c']:
+        raise Violation('second component of the big world differs')
+    return len(table)
+
+
 def explore_one(ctx, item):
     shape, names, depth = item
     h = Harness(shape, names)
@@ -244,10 +287,23 @@ def run(ctx):
     else:
         items = [(s, NAMES, 4) for s in SHAPES]
     par.pmap(ctx, explore_one, items, procs=ctx.procs)
+    for case in ([{'leg': 'big', 'kind': 'grid', 'dims': [64, 64]}, {'leg': 'big', 'kind': 'line', 'dims': [5000]}] +
+                 ([{'leg': 'big', 'kind': 'discrete', 'dims': [16, 16, 17]}] if ctx.tier == 'thorough' else [])):
+        if ctx.violations:
+            break
+        ctx.traces += 1
+        try:
+            ctx.transitions += hbfs._guard(big_world_case, case)
+        except Violation as v:
+            ctx.report(case, v)
+    ctx.leg('big_worlds', note='64x64, line 5000 (thorough also 16x16x17): position-keyed values beyond 2**63, every cell')
     ctx.caps.append(f'depth bound {items[0][2]} per shape (all histories up to that depth covered)')
 
 
 def replay(case):
+    if case['leg'] == 'big':
+        hbfs._guard(big_world_case, case)
+        return
     c = case['config']
     h = Harness(c['shape'], c['names'], c['kinds'])
     w = hbfs.replay_case(h, case)
